@@ -332,9 +332,10 @@ pub fn suite_clirefuse(dir: &str, seed: u64, _thorough: bool, st: &mut Stats) {
     let mut cases: Vec<(String, String, String, String)> = vec![]; // (cmd, outkind, flag, archivekind)
     for cmd in ["clone", "compress"] {
         for outkind in ["absent", "regular", "blockdev-small", "blockdev-big"] {
-            for flag in ["none", "force", "seed-output"] {
+            for flag in ["none", "force", "seed-output", "verify", "verify-force"] {
                 for ak in ["valid", "invalid", "mismatch", "prefix-pin", "empty-pin", "match-pin"] {
-                    if cmd == "compress" && (flag == "seed-output" || ak != "valid" || outkind.starts_with("blockdev")) { continue; }
+                    if cmd == "compress" && (flag == "seed-output" || flag.starts_with("verify") || ak != "valid" || outkind.starts_with("blockdev")) { continue; }
+                    if flag.starts_with("verify") && outkind == "blockdev-big" { continue; } // whole-device checksum: see DESIGN
                     cases.push((cmd.into(), outkind.into(), flag.into(), ak.into()));
                 }
             }
@@ -352,7 +353,13 @@ pub fn suite_clirefuse(dir: &str, seed: u64, _thorough: bool, st: &mut Stats) {
         let mut args: Vec<String> = vec![cmd.clone()];
         let mut env: Vec<(&str, &str)> = vec![];
         if outkind.starts_with("blockdev") { env.push(("BITA_VERIF_FAKE_BLOCK_DEV", "1")); }
-        match flag.as_str() { "force" => args.push("--force-create".into()), "seed-output" => args.push("--seed-output".into()), _ => {} }
+        match flag.as_str() {
+            "force" => args.push("--force-create".into()),
+            "seed-output" => args.push("--seed-output".into()),
+            "verify" => args.push("--verify-output".into()),
+            "verify-force" => { args.push("--verify-output".into()); args.push("--force-create".into()); }
+            _ => {}
+        }
         if cmd == "clone" {
             match ak.as_str() {
                 "invalid" => s.write("a.cba", b"this is not an archive at all, not even close........................"),
@@ -383,9 +390,9 @@ pub fn suite_clirefuse(dir: &str, seed: u64, _thorough: bool, st: &mut Stats) {
         st.sample(format!("{} -> exit {}", line, code));
         // expectation (C14): which cells are refusals
         let exists = outkind != "absent";
-        let refuse_exists = exists && flag == "none";
+        let refuse_exists = exists && (flag == "none" || flag == "verify");
         let refuse_archive = cmd == "clone" && (ak == "invalid" || ak == "mismatch" || ak == "prefix-pin" || ak == "empty-pin");
-        let refuse_small = cmd == "clone" && outkind == "blockdev-small" && flag != "none" && !refuse_archive;
+        let refuse_small = cmd == "clone" && outkind == "blockdev-small" && flag != "none" && flag != "verify" && !refuse_archive;
         let refused = refuse_exists || refuse_archive || refuse_small;
         let state = match (&now, exists) {
             (None, false) => "absent",
